@@ -58,6 +58,7 @@ class Run:
         self.state = {}
         self.doist = None
         self.cycles = 0
+        self.total_steps = 0
         self.max_cycles = MAX_CYCLES
         self.finished = False
         self.result = None  # ("return", done) | ("raise", typename)
@@ -87,6 +88,7 @@ class Run:
                 self.ev(tag + "-raise", spec["id"], sched=sid, ids=list(ids), exc=type(ex).__name__,
                         after=[self.name_of(d) for d in target.doers])
                 if propagate:
+                    self.state[spec["id"]].outcome = "raised"
                     raise
             else:
                 self.ev(tag + "-ret", spec["id"], sched=sid, ids=list(ids),
@@ -114,6 +116,9 @@ def yield_for(spec, k):
 
 def _step(run, spec, st, tyme, seen):
     """Common body of one recur step. Returns ("yield", y) | ("return", v); may raise."""
+    run.total_steps += 1
+    if run.total_steps > run.max_cycles * (len(run.state) + 1) + 1000:
+        raise Runaway("more recur steps than cycles x doers allow (a cycle never ended?)")
     st.step += 1
     k = st.step
     run.ev("recur", spec["id"], sent=tyme, seen=seen, step=k)
@@ -215,7 +220,11 @@ def make_genfunc(run, spec, method=False):
                     y = v
         except GeneratorExit:
             run.ev("cease", lid, by_sched=run.sched_depth > 0)
-        except Exception as ex:
+        except BaseException as ex:
+            # A function doer owns its lifecycle contexts.  hio's template (bareDo) catches Exception here;
+            # this harness doer catches BaseException so that a KeyboardInterrupt landing in it still gets an
+            # abort context: whatever C01 then reports about interrupts is about hio's own do() generators
+            # (Doer.do / DoDoer.do), not about the harness's doer functions.
             run.ev("abort", lid, exc=type(ex).__name__)
             raise
         else:
@@ -271,7 +280,8 @@ class PDoDoer(doing.DoDoer):
         own = self._own(deeds, self.deeds)
         if own:
             self._run.ev("exit-begin", self._spec["id"],
-                         alive=[self._run.name_of(d[2]) for d in self.deeds if d[0] is not None])
+                         alive=[self._run.name_of(d[2]) for d in self.deeds if d[0] is not None],
+                         marker=any(d[0] is None for d in self.deeds))
         self._run.sched_depth += 1
         try:
             super().exit(deeds=deeds)
@@ -318,7 +328,8 @@ class PDoist(doing.Doist):
         own = deeds is None or deeds is self.deeds
         if own:
             self._run.ev("sched-exit-begin", "doist",
-                         alive=[self._run.name_of(d[2]) for d in self.deeds if d[0] is not None])
+                         alive=[self._run.name_of(d[2]) for d in self.deeds if d[0] is not None],
+                         marker=any(d[0] is None for d in self.deeds))
         self._run.sched_depth += 1
         try:
             super().exit(deeds=deeds)
@@ -333,6 +344,18 @@ class PDoist(doing.Doist):
 # ---------------------------------------------------------------------------
 _current = {"run": None}
 _installed = {"tick": False}
+_loop = {"n": 0, "limit": 10**9}
+LOOP_TOOL = 4
+
+
+def _loop_guard(code, offset, dest):
+    """Back-edge counter on the scheduler loops (Doist.recur / DoDoer.recur / exit / remove): an endless loop
+    inside hio (e.g. a lost run-through-once marker) becomes a logical-budget overrun, not a wall-clock hang."""
+    if dest < offset:
+        _loop["n"] += 1
+        if _loop["n"] > _loop["limit"]:
+            _loop["n"] = 0
+            raise Runaway("scheduler loop iterated more often than cycles x doers allow")
 
 
 def install_hooks():
@@ -350,6 +373,15 @@ def install_hooks():
     tick.__wrapped__ = orig
     tyming.Tymist.tick = tick
     _installed["tick"] = True
+    mon = sys.monitoring
+    try:
+        mon.use_tool_id(LOOP_TOOL, "vf-loop-guard")
+        mon.register_callback(LOOP_TOOL, mon.events.JUMP, _loop_guard)
+        for f in (doing.Doist.recur, doing.DoDoer.recur, doing.Doist.exit, doing.DoDoer.exit,
+                  doing.Doist.remove, doing.DoDoer.remove):
+            mon.set_local_events(LOOP_TOOL, f.__code__, mon.events.JUMP)
+    except ValueError:
+        pass
 
 
 # ---------------------------------------------------------------------------
@@ -408,6 +440,23 @@ def build(prog):
     return run
 
 
+def cycle_budget(prog):
+    """Logical bound on the number of cycles a program may take: derived from its own limit, or (no limit) from
+    its finite scripts.  A run that exceeds it did not terminate where it had to (violation, not a timeout)."""
+    tock = float(prog["tock"])
+    if prog.get("limit"):
+        return int(abs(prog["limit"]) / tock) + 6
+    steps, big = 0, tock
+    for node, _ in all_nodes(prog):
+        big = max(big, float(node.get("tock") or 0.0))
+        if node["kind"] != "dodoer":
+            steps += (node["end"][0] if node.get("end") else 12) + 1
+            for y in node.get("ys") or []:
+                if y:
+                    big = max(big, float(y))
+    return int(steps * (big / tock + 2) * 2) + 20
+
+
 def do_lines():
     """(code, first_line, last_line) of the while-loop body of Doist.do where a scheduler-level
     KeyboardInterrupt is survivable by design (inside the inner try/except)."""
@@ -424,8 +473,16 @@ def do_lines():
 
 
 class LineFailpoint:
-    """sys.monitoring LINE failpoint: raise `exc` at the k-th executed line (counted over the
-    selected scheduler code objects only, never inside doer code or exit())."""
+    """sys.monitoring failpoint that raises KeyboardInterrupt in *scheduler* code (Doist.do loop body,
+    Doist.recur, DoDoer.recur), never inside doer code and never inside exit().
+
+    Only program points at which CPython really checks for pending signals are used, so no interleaving
+    is manufactured that a real SIGINT could not produce: function entry (PY_START), the return of a
+    C-level call (C_RETURN: deque.popleft/append, generator.send ...) and loop back-edges (backward JUMP).
+    (A first version raised at arbitrary LINE events and hit the `try:` NOP of Doist.do, which CPython's
+    exception table does not cover - an interrupt no real run can see; that was a harness artefact.)
+    The k-th such point (counted over the run) raises; k=None only counts.
+    """
     TOOL = 3
 
     def __init__(self, k=None, exc=KeyboardInterrupt):
@@ -433,41 +490,73 @@ class LineFailpoint:
         self.exc = exc
         self.n = 0
         self.fired_at = None
+        self.on_fire = None
         lo, hi = do_lines()
         self.do_code = doing.Doist.do.__code__
         self.do_range = (lo, hi)
         self.codes = [doing.Doist.recur.__code__, doing.DoDoer.recur.__code__, self.do_code]
+        self.linemap = {}
+        for c in self.codes:
+            m = {}
+            for off, _end, line in c.co_lines():
+                if line is not None:
+                    for o in range(off, _end, 2):
+                        m[o] = line
+            self.linemap[c] = m
         self.armed = True
 
-    def _cb(self, code, line):
+    def _hit(self, code, offset, what):
         if not self.armed:
             return
-        if code is self.do_code and not (self.do_range[0] <= line <= self.do_range[1]):
+        line = self.linemap.get(code, {}).get(offset)
+        if code is self.do_code and (line is None or not (self.do_range[0] <= line <= self.do_range[1])):
             return
         self.n += 1
         if self.k is not None and self.n == self.k:
-            self.fired_at = (code.co_name, line - code.co_firstlineno)
+            self.fired_at = (code.co_name, what, (line - code.co_firstlineno) if line else None)
             self.armed = False
-            raise self.exc("injected at line failpoint")
+            if self.on_fire:
+                self.on_fire(self.fired_at)
+            raise self.exc("injected at scheduler failpoint")
+
+    def _start(self, code, offset):
+        if code is not self.do_code:
+            self._hit(code, offset, "entry")
+
+    def _jump(self, code, offset, dest):
+        if dest < offset:
+            self._hit(code, offset, "loop-back-edge")
+
+    def _creturn(self, code, offset, func, arg0):
+        self._hit(code, offset, "after:" + getattr(func, "__name__", "c-call"))
+
+    def _call(self, code, offset, func, arg0):
+        return None
 
     def __enter__(self):
         mon = sys.monitoring
+        E = mon.events
         try:
             mon.use_tool_id(self.TOOL, "vf-failpoint")
         except ValueError:
             mon.free_tool_id(self.TOOL)
             mon.use_tool_id(self.TOOL, "vf-failpoint")
-        mon.register_callback(self.TOOL, mon.events.LINE, self._cb)
+        mon.register_callback(self.TOOL, E.PY_START, self._start)
+        mon.register_callback(self.TOOL, E.JUMP, self._jump)
+        mon.register_callback(self.TOOL, E.CALL, self._call)
+        mon.register_callback(self.TOOL, E.C_RETURN, self._creturn)
         for c in self.codes:
-            mon.set_local_events(self.TOOL, c, mon.events.LINE)
+            mon.set_local_events(self.TOOL, c, E.PY_START | E.JUMP | E.CALL)
         return self
 
     def __exit__(self, *a):
         mon = sys.monitoring
+        E = mon.events
         self.armed = False
         for c in self.codes:
             mon.set_local_events(self.TOOL, c, 0)
-        mon.register_callback(self.TOOL, mon.events.LINE, None)
+        for ev in (E.PY_START, E.JUMP, E.CALL, E.C_RETURN):
+            mon.register_callback(self.TOOL, ev, None)
         mon.free_tool_id(self.TOOL)
         return False
 
@@ -478,10 +567,13 @@ def execute(prog, failpoint_k=None, max_cycles=None, foreign_task=False):
     if max_cycles:
         run.max_cycles = max_cycles
     _current["run"] = run
+    _loop["n"] = 0
+    _loop["limit"] = (run.max_cycles + 5) * (len(run.state) + 3) * 3 + 2000
     fp = None
     try:
         if failpoint_k is not None:
             fp = LineFailpoint(k=failpoint_k if failpoint_k > 0 else None)
+            fp.on_fire = lambda at: run.ev("failpoint", "doist", at=list(at))
             fp.__enter__()
         try:
             if prog.get("runner", "do") == "ado":
